@@ -80,12 +80,22 @@ class World:
         self.refroot["prv_k"] = rb32.XKey(k2, None, m.c)
         self.wallets["pub_cc"] = PaperWallet.from_extended_key(self.refroot["prv_cc"].xpub(rb32.version_for("pub", tn, 44)))   # same pubkey, other chain code
         self.refroot["pub_cc"] = self.refroot["prv_cc"].neuter()
+        # the PRIVATE twin of a derived node: the account key of the first wallet imported as a root of its own (same key, chain
+        # code, depth, child number and parent fingerprint as the node the first wallet derives - equal by every field, at a
+        # different place in a different tree)
+        self.wallets["prv_acct"] = PaperWallet.from_extended_key(acct.xprv(rb32.version_for("prv", tn, 44)))
+        self.refroot["prv_acct"] = acct
         self.net = {w: tn for w in self.wallets}
         self.net["prv_net"] = not tn
         self.wids = list(self.wallets)
         self.cache = {}
         self.cache_lock = threading.Lock()
         self.base = [Handle(self.wallets[w].master, (), w) for w in self.wids]
+        try:
+            # ... and that derived node itself, so that both twins are asked for the same children
+            self.base.append(Handle(self.wallets["prv"].master.derive_path(index_list=list(acct_path)), tuple(acct_path), "prv"))
+        except Exception:  # noqa
+            pass
         self.root_xprv = m.xprv(rb32.version_for("prv", tn, 44))
         self.touched = {}       # id(node) -> Handle, for quiescent checks
         self.ckd_ok = {}        # id(node) -> successful ckd count (probe)
